@@ -774,3 +774,133 @@ func regexMinLen(re *syntax.Regexp) int {
 	}
 	return 0 // star, quest, empty-width assertions, empty match
 }
+
+// structEq: two SSA expressions denote the same quantity by construction: the
+// same value, re-loads of one cell or field, the same operator on such
+// operands, len of the same value, equal constants.
+func structEq(a, b ssa.Value, depth int) bool {
+	if a == b || sameStr(a, b) {
+		return true
+	}
+	if depth > 5 {
+		return false
+	}
+	switch x := a.(type) {
+	case *ssa.Const:
+		y, ok := b.(*ssa.Const)
+		return ok && x.Value != nil && y.Value != nil && constant.Compare(x.Value, token.EQL, y.Value)
+	case *ssa.BinOp:
+		y, ok := b.(*ssa.BinOp)
+		if !ok || x.Op != y.Op {
+			return false
+		}
+		if structEq(x.X, y.X, depth+1) && structEq(x.Y, y.Y, depth+1) {
+			return true
+		}
+		return (x.Op == token.ADD || x.Op == token.MUL) && structEq(x.X, y.Y, depth+1) && structEq(x.Y, y.X, depth+1)
+	case *ssa.Convert:
+		if y, ok := b.(*ssa.Convert); ok {
+			return structEq(x.X, y.X, depth+1)
+		}
+		return structEq(x.X, b, depth+1)
+	case *ssa.Call:
+		y, ok := b.(*ssa.Call)
+		if !ok {
+			return false
+		}
+		bx, okx := x.Call.Value.(*ssa.Builtin)
+		by, oky := y.Call.Value.(*ssa.Builtin)
+		if okx && oky && bx.Name() == by.Name() && len(x.Call.Args) == len(y.Call.Args) {
+			for i := range x.Call.Args {
+				if !structEq(x.Call.Args[i], y.Call.Args[i], depth+1) {
+					return false
+				}
+			}
+			return true
+		}
+	}
+	if y, ok := b.(*ssa.Convert); ok {
+		return structEq(a, y.X, depth+1)
+	}
+	return false
+}
+
+// c18BoundTests (R18.4e): the length test on the way to a slice is about the
+// bound it is supposed to justify.
+func c18BoundTests(c *Ctx, r *Report) {
+	r.Rule("R18.4e", "the length test is about the bound: for the slice bounds that R18.4b accepts because a length test lies on the way, (a) a positive constant upper bound K needs an established len(x) >= K (from len tests and constant HasPrefix/HasSuffix: 'len(input) != 6 → return' justifies input[2:6], '!= 5' would not), and (b) a bound that is a sum len(y)+n or n+m of run-time quantities needs a test that compares len(x) with that very sum — a helper that checks len(input) < ndigits and then takes input[0:len(leader)+ndigits] has tested the wrong quantity")
+	na, nb := 0, 0
+	for fn := range c.AllFunctions() {
+		if !IsModuleFunc(fn) || fn.Blocks == nil || fn.Pkg == nil {
+			continue
+		}
+		pp := fn.Pkg.Pkg.Path()
+		if !(strings.HasSuffix(pp, "/pkg/pbnjay-strptime") || strings.HasSuffix(pp, "/pkg/lib") || strings.HasSuffix(pp, "/pkg/scan") || strings.HasSuffix(pp, "/pkg/bifs") || strings.HasSuffix(pp, "/pkg/dkvpx") || strings.HasSuffix(pp, "/pkg/input") || strings.HasSuffix(pp, "/pkg/mlrval")) {
+			continue
+		}
+		k := 0
+		for _, b := range fn.Blocks {
+			for _, in := range b.Instrs {
+				sl, ok := in.(*ssa.Slice)
+				if !ok || sl.High == nil {
+					continue
+				}
+				t := sl.X.Type()
+				if p, isP := t.Underlying().(*types.Pointer); isP {
+					t = p.Elem()
+				}
+				if _, isArr := t.Underlying().(*types.Array); isArr {
+					continue
+				}
+				// (a) constant upper bound
+				if kk, isK := ssaConstInt(sl.High); isK && kk > 0 {
+					na++
+					k++
+					lb := lenLowerBound(b, sl.X)
+					if m := regexMatchMinLen(c, sl.X); m > lb {
+						lb = m
+					}
+					r.Check(lb >= kk, "R18.4e", fmt.Sprintf("%s: constant upper bound #%d [:%d]", SSAName(fn), k, kk), c.Rel(sl.Pos()), fmt.Sprintf("len >= %d established", lb),
+						fmt.Sprintf("%s slices x[…:%d] but the tests on the way establish only len(x) >= %d: a shorter x makes the process panic (slice bounds out of range)", SSAName(fn), kk, lb))
+					continue
+				}
+				// (b) a sum of run-time quantities
+				sum, ok := sl.High.(*ssa.BinOp)
+				if !ok || sum.Op != token.ADD {
+					continue
+				}
+				if _, c1 := sum.X.(*ssa.Const); c1 {
+					continue
+				}
+				if _, c2 := sum.Y.(*ssa.Const); c2 {
+					continue
+				}
+				if mentionsLen(sum, sl.X, 0) {
+					continue // derived from the sliced value itself
+				}
+				nb++
+				k++
+				matched := false
+				for _, g := range GuardsAt(b) {
+					cmp, ok := g.Cond.(*ssa.BinOp)
+					if !ok {
+						continue
+					}
+					var other ssa.Value
+					if lenOf(cmp.X, sl.X) {
+						other = cmp.Y
+					} else if lenOf(cmp.Y, sl.X) {
+						other = cmp.X
+					}
+					if other != nil && structEq(other, sum, 0) {
+						matched = true
+					}
+				}
+				r.Check(matched, "R18.4e", fmt.Sprintf("%s: summed upper bound #%d", SSAName(fn), k), c.Rel(sl.Pos()), "len(x) is compared with the same sum",
+					fmt.Sprintf("%s slices up to %s, a sum of run-time quantities, and no test on the way compares len(x) with that sum: whatever is tested instead does not justify the bound", SSAName(fn), sum.String()))
+			}
+		}
+	}
+	r.Floor("R18.4e", "constant or summed upper bounds on strings and slices", na+nb, 1)
+	r.Infof("R18.4e: %d constant upper bounds, %d summed upper bounds", na, nb)
+}
